@@ -89,8 +89,23 @@ class symbolic_order:
     def __enter__(self):
         self.prev = hook.ORDER["mode"]
         hook.ORDER["mode"] = self.model.order
+        # a builtin set handed to networkx as a node bunch (out_edges(nbunch=...), subgraph(...), degree(...)) is iterated
+        # inside networkx, where the source rewrite does not reach: order it at the one funnel every such call goes through
+        import networkx as nx
+
+        self._nbunch_iter = real = nx.Graph.nbunch_iter
+        order = self.model.order
+
+        def nbunch_iter(g, nbunch=None):
+            if isinstance(nbunch, (set, frozenset)) and hook.ORDER["mode"] is not None:
+                nbunch = order(list(nbunch))
+            return real(g, nbunch)
+        nx.Graph.nbunch_iter = nbunch_iter
         return self.model
 
     def __exit__(self, *a):
+        import networkx as nx
+
+        nx.Graph.nbunch_iter = self._nbunch_iter
         hook.ORDER["mode"] = self.prev
         return False
